@@ -178,6 +178,8 @@ impl Prop for C06 {
 			max_len: 1 + rng.usize(8),
 			max_depth: 4,
 			budget: 6 + rng.below(40) as i32,
+			// reference-written blocks above the decoders' and the BufReader's buffer sizes
+			str_boost: if rng.chance(1, 30) { *rng.pick(&[9000usize, 40000]) } else { 0 },
 		};
 		let n = rng.usize(10);
 		let values: Vec<Val> = (0..n).map(|_| val::gen_val(rng, &env, &schema, &vcfg)).collect();
